@@ -299,10 +299,19 @@ def r4_rejections(report, repo):
   g = lib.cfg(f)
   sets = lib.nodes_with_call(g, attr='set')
   report.expect_instances(rule, len(sets), 1, 'measured_value.set calls')
+  pname = lib.param_names(f.node)[1]
+
+  def declared_test(s):
+    """`<name> not in self._measurements` / `<name> in self._measurements`"""
+    return s.kind == 'test' and isinstance(s.ast, ast.Compare) and \
+        len(s.ast.ops) == 1 and isinstance(s.ast.ops[0], (ast.In, ast.NotIn)) \
+        and dotted(s.ast.left) == pname and \
+        dotted(s.ast.comparators[0]) == 'self._measurements'
   for n, c in sets:
-    ok1 = g.dominated_by(n, lambda x: any(
-        isinstance(s, ast.Call) and call_name(s) == 'self._assert_valid_key'
-        for s in x.subnodes()))
+    # (the membership helper, if any, is inlined by the loader)
+    ok1 = g.dominated_by_edge(
+        n, lambda s, l, d: declared_test(s) and
+        (l == 'T') == isinstance(s.ast.ops[0], ast.In))
     ok2 = g.dominated_by_edge(
         n, lambda s, l, d: s.kind == 'test' and l == 'F' and
         (dotted(s.ast) or '').endswith('.dimensions'))
@@ -314,13 +323,11 @@ def r4_rejections(report, repo):
                  'set() only for non-dimensioned measurements',
                  'a dimensioned measurement can be assigned without '
                  'coordinates')
-  av = repo.func(ME, 'Collection._assert_valid_key')
-  gv = lib.cfg(av)
-  ok = any(n.kind == 'test' and isinstance(n.ast, ast.Compare) and isinstance(
-      n.ast.ops[0], ast.NotIn) and lib.branch_must_raise(gv, n, 'T')
-           for n in gv.nodes)
-  report.check(ok, rule, av.qualname, 'raises', av.node,
-               '_assert_valid_key raises when the name is not declared')
+  ok = any(declared_test(n) and lib.branch_must_raise(
+      g, n, 'F' if isinstance(n.ast.ops[0], ast.In) else 'T')
+           for n in g.nodes)
+  report.check(ok, rule, f.qualname, 'raises', f.node,
+               'an undeclared name raises')
   d = repo.func(ME, 'DimensionedMeasuredValue.__setitem__')
   gd = lib.cfg(d)
   writes = [n for n in gd.nodes if n.kind == 'stmt' and (
@@ -450,9 +457,10 @@ def r5_finalize_measurements(report, repo):
         'leave the phase PARTIALLY_SET')
     if inside_loop:
       ok = all(g.dominated_by_edge(
-          n, lambda s, l, d: s.kind == 'test' and l == 'T' and isinstance(
-              s.ast, ast.Compare) and ends_with(
-                  dotted(s.ast.comparators[0]) or '', 'Outcome.PARTIALLY_SET'))
+          n, lambda s, l, d: s.kind == 'test' and isinstance(
+              s.ast, ast.Compare) and len(s.ast.ops) == 1 and ends_with(
+                  dotted(s.ast.comparators[0]) or '', 'Outcome.PARTIALLY_SET')
+          and (l == 'T') == isinstance(s.ast.ops[0], (ast.Is, ast.Eq)))
                for n in g.nodes_of(c))
       report.check(ok, rule, cf.qualname, 'only-partially-set', c,
                    'end-of-phase validation targets PARTIALLY_SET measurements')
@@ -555,25 +563,30 @@ def r7_measurements_pass(report, repo, rule='C06-R7'):
                'UNSET allowed only when CONF.allow_unset_measurements',
                'UNSET measurements are accepted without (or regardless of) '
                'allow_unset_measurements')
-  rets = [n for n in walk_no_nested(f.node) if isinstance(n, ast.Return)]
-  ok = len(rets) == 1 and call_name(rets[0].value) == 'all'
+  # canonical quantifier shape (return all(...) and the explicit early-return
+  # loop are the same thing here)
+  qs = lib.quantifier_loops(g)
+  ok = len(qs) == 1 and qs[0]['kind'] == 'all' and isinstance(
+      qs[0]['iter'], ast.Call) and dotted(qs[0]['iter'].func) in (
+          'self.phase_record.measurements.values', 'self.measurements.values')
   if ok:
-    gen = rets[0].value.args[0]
-    ok = isinstance(gen, ast.GeneratorExp) and isinstance(
-        gen.elt, ast.Compare) and isinstance(gen.elt.ops[0], ast.In) and \
-        (dotted(gen.elt.left) or '').endswith('.outcome') and \
-        not gen.generators[0].ifs and isinstance(
-            gen.generators[0].iter, ast.Call) and dotted(
-                gen.generators[0].iter.func) in (
-                    'self.phase_record.measurements.values',
-                    'self.measurements.values')
+    var = dotted(qs[0]['target'])
+    allowed = dotted(sets[0].targets[0]) if sets else None
+    cs = qs[0]['conds']
+    # the only condition for "return False": the outcome is not in the allowed
+    # set (no filter that would exempt some measurements)
+    ok = len(cs) == 1 and isinstance(cs[0][0], ast.Compare) and \
+        dotted(cs[0][0].left) == (var or '') + '.outcome' and \
+        dotted(cs[0][0].comparators[0]) == allowed and (
+            (isinstance(cs[0][0].ops[0], ast.In) and cs[0][1] is False) or
+            (isinstance(cs[0][0].ops[0], ast.NotIn) and cs[0][1] is True))
   report.check(ok, rule, f.qualname, 'all-measurements', f.node,
                'returns all(meas.outcome in allowed) over every measurement')
   m = repo.func(TS, 'PhaseState._measurements_marginal')
-  rets = [n for n in walk_no_nested(m.node) if isinstance(n, ast.Return)]
-  ok = len(rets) == 1 and call_name(rets[0].value) == 'any' and any(
-      isinstance(x, ast.Attribute) and x.attr == 'marginal'
-      for x in ast.walk(rets[0]))
+  qm = lib.quantifier_loops(lib.cfg(m))
+  ok = len(qm) == 1 and qm[0]['kind'] == 'any' and len(qm[0]['conds']) == 1 and \
+      qm[0]['conds'][0][1] is True and dotted(qm[0]['conds'][0][0]) == \
+      (dotted(qm[0]['target']) or '') + '.marginal'
   report.check(ok, rule, m.qualname, 'any-marginal', m.node,
                '_measurements_marginal = any(meas.marginal ...)')
 
